@@ -11,6 +11,8 @@ structure State where
   c : Cluster := {}
   known : Bool := true      -- false once the case used an operation the model cannot replay (`bulk`)
   down : List Nat := []     -- nodes that refuse connections (crashed but still selected)
+  hangNext : List Nat := [] -- nodes whose next storage mutation performs the write and never returns
+  stuck : List Nat := []    -- nodes inside a hung handler
   dists : List (Nat × Replication.Dist (Nat × Nat × List Nat)) := []   -- the task distributor of node i (members: (member id, node index))
   pollers : List (Nat × Replication.Poller) := []     -- the replication cycle service of node j, when started
   pending : Option (Nat × Pending) := none
@@ -103,21 +105,19 @@ def repairAll (st : State) (j i : Nat) (rf : Bool) : State × String :=
   ({ st with c := cNew, others := others },
     if failed then "err" else if synced.isEmpty then "skipped" else "synced " ++ ",".intercalate synced)
 
-/-- A bulk write with the replicas the level selected (`put_many` / `del_many` of the handle). -/
+/-- A write through the replicas the level selected: local handler, one request per replica
+(`Cluster.replicateAll`), `handle_consistency_distribution` (`Cluster.distribute`). -/
 def wbulk (st : State) (i : Nat) (targets : List Nat) (iss : Issued) (ts : Nat) : State × String :=
   let (c1, okLocal) := applyAt st.c i 0 iss
   let c1 := { c1 with ops := c1.ops ++ [(i, iss)] }
   let k := c1.ops.length - 1
   if !okLocal then ({ st with c := c1 }, s!"local op={k} ts={ts}")
   else
-    let (c2, acks) := targets.foldl (fun (acc : Cluster × Nat) t =>
-      if st.down.contains t then acc
-      else
-        let (c', ok) := applyAt acc.1 t 0 iss
-        (c', acc.2 + (if ok then 1 else 0))) (c1, 0)
-    ({ st with c := c2 },
-      if acks == targets.length then s!"ok op={k} ts={ts}"
-      else s!"consistency {acks}/{targets.length} op={k} ts={ts}")
+    let (c2, stuck, replies) := replicateAll c1 st.down st.hangNext st.stuck targets iss
+    ({ st with c := c2, stuck := stuck, hangNext := st.hangNext.filter (fun t => !stuck.contains t) },
+      match distribute replies with
+      | .ok _ => s!"ok op={k} ts={ts}"
+      | .error (acks, required) => s!"consistency {acks}/{required} op={k} ts={ts}")
 
 def showRepair (ks : String) : RepairOut → String
   | .skipped => "skipped"
@@ -276,6 +276,10 @@ def step (st : State) (toks : List String) : State × String :=
     match j.toNat? with
     | some j => ({ st with c := setNode c j { getNode c j with failNext := true } }, "ok")
     | none => (st, "bad-op")
+  | ["hangnext", j] =>
+    match j.toNat? with
+    | some j => ({ st with hangNext := j :: st.hangNext }, "ok")
+    | none => (st, "bad-op")
   | ["unreach", j] =>
     match j.toNat? with
     | some j => ({ st with down := j :: st.down }, "ok")
@@ -346,19 +350,7 @@ def step (st : State) (toks : List String) : State × String :=
         match d with
         | some d =>
           let iss : Issued := if op == "wput" then .put (id, ts, d) else .del id ts
-          let (c1, okLocal) := applyAt c i 0 iss
-          let c1 := { c1 with ops := c1.ops ++ [(i, iss)] }
-          let k := c1.ops.length - 1
-          if !okLocal then ({ st with c := c1 }, s!"local op={k} ts={ts}")
-          else
-            let (c2, acks) := targets.foldl (fun (acc : Cluster × Nat) t =>
-              if st.down.contains t then acc     -- unreachable replica: nothing applied, no acknowledgement
-              else
-                let (c', ok) := applyAt acc.1 t 0 iss
-                (c', acc.2 + (if ok then 1 else 0))) (c1, 0)
-            ({ st with c := c2 },
-              if acks == targets.length then s!"ok op={k} ts={ts}"
-              else s!"consistency {acks}/{targets.length} op={k} ts={ts}")
+          wbulk st i targets iss ts
         | none => (st, "bad-op")
       | _, _, _, _ => (st, "bad-op")
     else (st, "bad-op")
